@@ -156,9 +156,18 @@ def run(pid, tier, replay=None):
             names = ["p", "q", "r"]
             nextpeer = [0]
 
+            def lock_free():
+                # the chain manager's lock guards every state change and the miner's reads: if an input leaves it held, the next block,
+                # transaction or miner request blocks the thread that needs it, for ever
+                lk = run_.node.local.chain_manager.lock
+                if lk.acquire(timeout=1.0):
+                    lk.release()
+                    return True
+                return False
+
             def snapshot(others_served=True):
                 p = run_.post()
-                return {"open": p["open"], "served": p["served"], "head": p["head"], "pool": p["pool"],
+                return {"lock_free": lock_free(), "open": p["open"], "served": p["served"], "head": p["head"], "pool": p["pool"],
                         "rows": sorted(x[0] for x in p["rows"]), "buffer": p["buffer"], "escaped": p["escaped"], "running": p["running"],
                         "others_served": others_served}
             initial = snapshot()
@@ -247,6 +256,8 @@ def run(pid, tier, replay=None):
                     register_block(rt, w, blk_)
                 events.append({"op": "input", "peer": peer, "class": cls, "bytes": len(data), "post": snapshot(served_ok)})
                 counts[cls] = counts.get(cls, 0) + 1
+                if not events[-1]["post"]["lock_free"]:
+                    break                                  # anything further that needs the lock would hang this run
                 chk.case((i, k, cls), nontrivial=cls not in ("valid_block", "valid_transaction", "get_peers"))
                 # a connection left in the middle of a frame is abandoned by its remote side (so that later requests on it are clean)
                 if run_.node.is_open(peer):
